@@ -547,7 +547,7 @@ func runC15(ctx *core.Ctx, pool *par.Pool) {
 	if !ctx.Quick() {
 		cfgs = []pagedrv.Cfg{pagedrv.CfgA, pagedrv.CfgB, pagedrv.CfgC, pagedrv.CfgD}
 		depth = 8
-		ctx.SetBudget(25 * time.Minute)
+		ctx.SetBudget(15 * time.Minute)
 	}
 	var total xstate.Stats
 	cells, prefixes := 0, 0
